@@ -17,6 +17,11 @@ off-by-default parameters (get default, apply defaults), sequences where one val
 the table), and a non-commuting list of functions in do.  The model's cells are re-pointed at the table's own objects after every verified step, so
 that identity-sensitive conditions (a NaN in a list of values) are judged on the same objects the table holds.
 
+Round-5/6 classes (appendix 21-29): zone-aware stamps as cells (zone_aware_cells), indices just outside the table (index_outside: must be refused), compiled patterns with flags in inc / exc
+(regex_with_flags / regex_flag_decides) and functools.partial user functions (fn_shape=partial_kw / partial_pos), strided views of one buffer as masks / integer arrays (strided_views_of_one_buffer),
+the API's own defaults written out (explicit_default), filter values within a tolerance of a cell (near_miss_value), one cell written through the handed-out column list between two reads
+(cell_edit_through_column), falsy values where one value is meant (falsy_value).  Simultaneous renames (class 23) were already there (rename_onto_the_old_name_of_another_renamed_column).
+
 Model conventions that the column store forces (written into the oracle, listed in ASSUMPTIONS):
   * a table with zero columns has zero rows (so `[{}]`, `d + {}` and "delete the last column" give the empty table);
   * column order is not compared;
@@ -24,14 +29,31 @@ Model conventions that the column store forces (written into the oracle, listed 
     same table, not a copy.
 """
 import copy as _copy
+import datetime as _datetime
+import functools
 import math
 import operator
 import os
+import re
 
 from hypothesis import strategies as st
 
 from pv.core import MachineSub, Violation, call, call_or, must_raise, check, short
-from pv.codec import build, s_scalar, D0
+from pv.codec import build as _codec_build, mkdt, s_scalar, D0
+
+# every zone-aware stamp of this module lives in ONE zone with a non-zero offset that is not a whole number of hours
+ZONE = _datetime.timezone(_datetime.timedelta(hours=5, minutes=30))
+
+
+def build(v):
+    """codec.build plus the zone-aware stamps of this module: ['dtz', ordinal, seconds] a datetime, ['tsz', ordinal, seconds] a pandas Timestamp, both in ZONE"""
+    if isinstance(v, list) and v and v[0] in ('dtz', 'tsz'):
+        stamp = mkdt(*v[1:]).replace(tzinfo=ZONE)
+        if v[0] == 'tsz':
+            import pandas as pd
+            return pd.Timestamp(stamp)
+        return stamp
+    return _codec_build(v)
 
 ASSUMPTIONS = [
     'cells are None, ints (also beyond 2**53 / 2**63), floats (also NaN, -0.0, 1e308, 5e-324; no inf), strings and datetimes; numpy float64 / int64 scalars and pandas Timestamps '
@@ -45,7 +67,9 @@ ASSUMPTIONS = [
     'd[[]] is read as "no rows" (documented by tests/test_dictable.py::test_dictable_getitem), so column projections d[[cols]] and d & cols keep at least one column; '
     'd & cols with an empty intersection is the table without columns (and so without rows): fixed in /repo (was: kept every column), now generated',
     'rename/relabel targets are fresh names (no collisions); the list form d.rename([names]) is used for >= 2 columns only (one name is ambiguous with the prefix/suffix string form)',
-    'slice steps are non-zero; integer indices are within [-len, len); boolean masks have full length; misfit lengths are neither len(d) nor 1',
+    'slice steps are non-zero; boolean masks have full length; misfit lengths are neither len(d) nor 1. Integer indices are within [-len, len) where a row is expected; an index outside (lifted: used to be left out) '
+    'has no row in a list of records, so d[i], d[[.., i, ..]], d[array], d[range over the end] must raise (any exception counts as a refusal) and leave every table as it was - on tables with at least one column '
+    '(a table without columns has no cell to look up: d[5] is the empty record there)',
     'functions used for derived columns / do() are total on the cell universe and return cells of the universe; do() with a function of (value, other) never transforms "other" itself',
     'chained derived columns d(x = f(cols), y = g(x)) use two fresh target names (a target that is its own input is "circular" by design)',
     'construction from two columns of different lengths (neither 1) may raise ValueError; if it returns, only rectangularity is demanded',
@@ -63,6 +87,14 @@ ASSUMPTIONS = [
     'pyg-base raised KeyError there (finding F29, fixed in /repo 4fba231; replay replays/C01/F29-*.json; left out only with PV_C01_EXCLUDE_FIXED=1)',
     'd.apply(f, **defaults): a default is used for a parameter that is not a column; a column of that name wins (docstring of Dict.apply). d.get(col, default) is the column, or default once per row',
     'inc / exc with a NaN value keeps / drops the rows whose cell is a NaN float (docstring of inc); a NaN inside a value LIST follows python membership (identity or ==)',
+    'zone-aware datetimes / Timestamps are datetimes: they are carried through with the same instant AND the same utc offset (same() compares both); all of them live in one zone (+05:30)',
+    'inc / exc by a compiled pattern (docstring of inc) keeps / drops the rows whose cell is a string in which pattern.search finds something; cells that are not strings never match. The expected rows are worked out with '
+    'plain string operations (lower(), in, startswith, split) for patterns built from one alphanumeric ascii literal, so only such patterns are generated; a pattern inside a LIST of values is not generated (membership, not search)',
+    'functools.partial objects are user functions like any other: keywords / leading arguments they carry are theirs (never a column name here), the remaining named parameters are presented with the columns',
+    'the column list handed out by d[c] / d.c / d.get(c) is (today) the table\'s own list: a cell written into it is a cell written into the table, and into every other live column that is the same list object '
+    '(d.copy(), d(..), d - c, d & c, d[[cols]], rename, do, dictable(d) share their untouched column lists with the operand: the statement does not say whether they may, so the model follows object identity of the lists, '
+    'read from the raw column store); were a copy handed out, no table may change. Only the derived views (len, iteration, rows, later reads) are judged, which is what a stale per-object memo would break',
+    'a number within rtol 1e-5 / atol 1e-8 of a cell is another value unless == says otherwise',
     'a string is one cell whatever its length (d[c] = "abc" on a 3-row table broadcasts "abc"); range, dict_keys and dict_values are sequences of cells like lists and tuples',
 ]
 
@@ -143,6 +175,9 @@ def same(a, b):
         if a != a or b != b:
             return a != a and b != b
         return bool(a == b) and math.copysign(1.0, a) == math.copysign(1.0, b)
+    if isinstance(a, _datetime.datetime):
+        # the same instant, still (or still not) zone-aware, at the same offset
+        return bool(a == b) and a.utcoffset() == b.utcoffset()
     return bool(a == b)
 
 
@@ -241,6 +276,49 @@ def _cond(x, v):
     return _hit(x, v if isinstance(v, list) else [v])
 
 
+def _falsy(v):
+    """0, 0.0, -0.0, '', None: what a truthiness test takes for "nothing given"""
+    return v is None or (isinstance(v, (int, float, str)) and not isinstance(v, bool) and not v)
+
+
+def _plainnum(v):
+    return _isnumber(v) and v == v and abs(v) < 1e300
+
+
+def _close_not_equal(x, y):
+    """two numbers that numpy.isclose (rtol 1e-5, atol 1e-8) takes for equal and == does not"""
+    if not (_plainnum(x) and _plainnum(y)) or bool(x == y):
+        return False
+    x, y = float(x), float(y)
+    return abs(x - y) <= 1e-8 + 1e-5 * min(abs(x), abs(y))
+
+
+def _near(x):
+    """a number a relative 2e-9 (for 0: an absolute 1e-12) away from x, or None when x has no such neighbour"""
+    if not _plainnum(x) or isinstance(x, bool) or abs(x) >= 2 ** 53:
+        return None
+    v = float(x) * (1 + 2e-9) if x != 0 else 1e-12
+    return v if v != x else None
+
+
+# compiled patterns that carry flags, each with a plain-python reading of "pattern.search(cell) is not None" for a string cell, with and without its flag.
+# lit is a literal made of letters and digits only
+def _re_variants(lit):
+    sw = lit.swapcase()
+    lines = lambda v: v.split('\n')
+    a_any_b = lambda v, nl: any(v[i] == 'A' and v[i + 2] == 'b' and (nl or v[i + 1] != '\n') for i in range(len(v) - 2))
+    return [
+        ('re.compile(%r, re.I)' % sw, re.compile(re.escape(sw), re.I), lambda v: lit.lower() in v.lower(), lambda v: sw in v),
+        ('re.compile(%r, re.X)' % (' '.join(lit) + '  # c'), re.compile(' '.join(lit) + '  # c', re.X), lambda v: lit in v, lambda v: (' '.join(lit) + '  # c') in v),
+        ('re.compile(%r, re.I | re.M)' % ('^' + sw[-1:] + '$'), re.compile('^' + re.escape(sw[-1:]) + '$', re.I | re.M), lambda v: any(x.lower() == lit[-1:].lower() for x in lines(v)), lambda v: v in (sw[-1:], sw[-1:] + '\n')),
+        ('re.compile(%r, re.M)' % ('^' + (lit[-1:] or 'b')), re.compile('^' + (lit[-1:] or 'b'), re.M), lambda v: any(x.startswith(lit[-1:] or 'b') for x in lines(v)), lambda v: v.startswith(lit[-1:] or 'b')),
+        ('re.compile(%r, re.S)' % 'A.b', re.compile('A.b', re.S), lambda v: a_any_b(v, True), lambda v: a_any_b(v, False)),
+        # controls without a flag: a callee that ADDS flags is as wrong as one that drops them
+        ('re.compile(%r)' % sw, re.compile(re.escape(sw)), lambda v: sw in v, lambda v: sw in v),
+        ('re.compile(%r)' % 'A.b', re.compile('A.b'), lambda v: a_any_b(v, False), lambda v: a_any_b(v, False)),
+    ]
+
+
 def _named(names, fn):
     """lambda <names>: fn(<names>)  - pyg_base looks at parameter names"""
     return eval('lambda %s: _fn(%s)' % (', '.join(names), ', '.join(names)), {'_fn': fn})
@@ -248,8 +326,8 @@ def _named(names, fn):
 
 # shapes of user functions: which parameters are NAMED decides what the table presents (see ASSUMPTIONS); a function that is handed anything it
 # must not get (something in *rest / **kw, a default replaced or distributed over the rows) answers 'LEAK', which no model function ever returns
-SHAPES = ['plain', 'plain', 'plain', 'kw', 'rest', 'p0_rest', 'kwonly', 'default_col', 'default_absent', 'allkw', 'allargs']
-DO_SHAPES = ['plain', 'plain', 'plain', 'kw', 'rest', 'kwonly', 'default_col', 'default_absent', 'other_name']
+SHAPES = ['plain', 'plain', 'plain', 'kw', 'rest', 'p0_rest', 'kwonly', 'default_col', 'default_absent', 'allkw', 'allargs', 'partial_kw', 'partial_pos']
+DO_SHAPES = ['plain', 'plain', 'plain', 'kw', 'rest', 'kwonly', 'default_col', 'default_absent', 'other_name', 'partial_kw']
 
 
 def _container(n, cols, k):
@@ -279,6 +357,13 @@ def _shaped(names, fn, shape, n=0, cols=(), k=0):
         src = 'lambda %s%s=_W: %s' % (''.join(x + ', ' for x in names[:-1]), names[-1], body)
     elif shape == 'default_absent':
         src = 'lambda %s, wdef=_W: (%s) if wdef is _W else "LEAK"' % (a, body)
+    elif shape == 'partial_kw':
+        # an object that carries an option: functools.partial with a keyword that is not a column; rebuilding the call from .func loses it
+        src = 'lambda %s, wdef: (%s) if wdef is _W else "LEAK"' % (a, body)
+        return functools.partial(eval(src, env), wdef=env['_W']), names, (lambda row: fn(*[row[x] for x in names]))
+    elif shape == 'partial_pos':
+        src = 'lambda wdef, %s: (%s) if wdef is _W else "LEAK"' % (a, body)
+        return functools.partial(eval(src, env), env['_W']), names, (lambda row: fn(*[row[x] for x in names]))
     else:
         src = 'lambda %s: %s' % (a, body)
     return eval(src, env), names, (lambda row: fn(*[row[x] for x in names]))
@@ -293,7 +378,10 @@ def _shaped_do(h, o, shape, n=0, cols=(), k=0):
            'kwonly': 'lambda value, *, %s: %s' % (o, body),
            'default_col': 'lambda value, %s=_W: %s' % (o, body),
            'default_absent': 'lambda value, %s, wdef=_W: (%s) if wdef is _W else "LEAK"' % (o, body),
+           'partial_kw': 'lambda value, %s, wdef: (%s) if wdef is _W else "LEAK"' % (o, body),
            'other_name': 'lambda first, %s: _h(first, %s)' % (o, o)}.get(shape, 'lambda value, %s: %s' % (o, body))
+    if shape == 'partial_kw':
+        return functools.partial(eval(src, env), wdef=env['_W'])
     return eval(src, env)
 
 
@@ -303,7 +391,10 @@ def _shaped_do1(f, shape, n=0, cols=(), k=0):
     src = {'kw': 'lambda value, **kw: _f(value) if not kw else "LEAK"',
            'rest': 'lambda value, *rest: _f(value) if not rest else "LEAK"',
            'default_absent': 'lambda value, wdef=_W: _f(value) if wdef is _W else "LEAK"',
+           'partial_kw': 'lambda value, wdef: _f(value) if wdef is _W else "LEAK"',
            'other_name': 'lambda first: _f(first)'}.get(shape, 'lambda value: _f(value)')
+    if shape == 'partial_kw':
+        return functools.partial(eval(src, env), wdef=env['_W'])
     return eval(src, env)
 
 
@@ -332,7 +423,9 @@ ASDEFAULT = ('a', 'default', 'object')
 # numbers a vectorised path would mangle (ints beyond 2**53 / 2**63 next to floats, NaN, -0.0, the ends of the float range) and one value in several raw types
 WIDE = [2 ** 53 + 1, -(2 ** 53) - 1, 2 ** 63, -(2 ** 63) - 1, 1e16, -0.0, 5e-324, 1.7976931348623157e308, ['nan', 0], ['nan', 1]]
 RAW = [['np', 'float64', 1.0], ['np', 'int64', 1], ['np', 'float64', 2.5], ['np', 'int64', 2], ['np', 'float64', 0.0], ['ts', D0 + 1, 0], ['ts', D0 + 2, 0]]
-_cell = st.one_of(s_scalar(), s_scalar(), s_scalar(), st.sampled_from(WIDE), st.sampled_from(RAW), st.just(['nan', 0]))
+# zone-aware stamps (datetime and Timestamp, one zone), a string of two lines (what re.M / re.S tell apart), numbers within numpy.isclose of 1.0, 2.5 and 0.0 without being equal to them
+EXTRA = [['dtz', D0 + 1, 0], ['dtz', D0 + 2, 0], ['tsz', D0 + 1, 0], ['dtz', D0 + 1, 43200], 'A\nb', 1.000000001, 2.5000000001, 1e-09, -1e-09]
+_cell = st.one_of(s_scalar(), s_scalar(), s_scalar(), st.sampled_from(WIDE), st.sampled_from(RAW), st.just(['nan', 0]), st.sampled_from(EXTRA))
 _numcell = st.one_of(st.integers(-3, 6), st.sampled_from([-1.5, 0.0, 1.0, 2.0, 2.5]), st.sampled_from(WIDE), st.sampled_from(RAW[:5]))
 _vals = st.one_of(st.lists(_cell, min_size=1, max_size=6), st.lists(_cell, min_size=1, max_size=6), st.lists(_cell, min_size=1, max_size=6),
                   st.lists(_numcell, min_size=2, max_size=6))
@@ -358,6 +451,9 @@ def _cv(c, i, kind):
         if j % 3 == 0:
             return [['dt', D0 + 40 + j, 0], ['ts', D0 + 40 + j, 0]][i % 2]
         return [j, float(j), ['np', 'float64', float(j)], ['np', 'int64', j]][(i + j) % 4]
+    if kind == 'tz':
+        # zone-aware stamps only (datetime and Timestamp of one zone), half a day apart
+        return [['dtz', D0 + 40 * j + i // 2, 43200 * (i % 2)], ['tsz', D0 + 40 * j + i // 2, 43200 * (i % 2)]][(i + j) % 2]
     if kind == 'num':
         # numbers only: what a vectorised sort / grouping / take would accept, with values it cannot hold
         return [100 * j + i, j + 0.5, 2 ** 53 + j, -0.0, ['nan', 0], 2 ** 63 + j, float(2 ** 53), 0.0, -(2 ** 63) - j, 1e16][(i + 3 * j) % 10]
@@ -376,7 +472,7 @@ def _permuted_records(draw):
     keys = draw(st.lists(_name, min_size=2, max_size=4, unique=True))
     n = draw(st.integers(2, 5))
     ragged = draw(st.sampled_from([False, False, False, True]))
-    kind = draw(st.sampled_from(['int', 'str', 'float', 'dt', 'mixed', 'raw', 'num']))
+    kind = draw(st.sampled_from(['int', 'str', 'float', 'dt', 'mixed', 'raw', 'num', 'tz']))
     recs = []
     for i in range(n):
         order = list(draw(st.permutations(keys)))
@@ -397,10 +493,10 @@ class Tables(object):
         'new_records': dict(recs=_records, form=st.sampled_from(['list', 'data_kw', 'concat'])),
         'new_columns': dict(cols=st.lists(st.tuples(_name, st.sampled_from(['list', 'list', 'list', 'scalar', 'scalar', 'len1', 'len1', 'tuple', 'tuple', 'range', 'dvalues', 'strn', 'shared']), _vals),
                                           max_size=4, unique_by=lambda c: c[0]),
-                            n=st.integers(0, 5), form=st.sampled_from(['dict', 'kw', 'split', 'pairs', 'data_kw']), dup=st.integers(0, 7)),
+                            n=st.integers(0, 5), form=st.sampled_from(['dict', 'kw', 'split', 'pairs', 'data_kw', 'kw_explicit_none']), dup=st.integers(0, 7)),
         'new_rows': dict(cols=_names, rows=st.lists(st.lists(_cell, min_size=4, max_size=4), max_size=5),
                          form=st.sampled_from(['headers', 'columns_kw', 'first_row', 'tuples', 'zip', 'tuple_headers']), dup=st.integers(0, 5)),
-        'new_empty': dict(form=st.sampled_from(['none', 'cols_kw', 'headers', 'columns_only', 'dict', 'records']), cols=_names),
+        'new_empty': dict(form=st.sampled_from(['none', 'cols_kw', 'headers', 'columns_only', 'dict', 'records', 'explicit_none']), cols=_names),
         'new_misfit': dict(cols=st.lists(_name, min_size=2, max_size=2, unique=True), la=st.sampled_from([0, 2, 3, 4]), lb=st.integers(2, 6),
                            form=st.sampled_from(['kw', 'dict'])),
         # ---- in place
@@ -410,19 +506,23 @@ class Tables(object):
         'delcol': dict(t=_t, col=_ci, how=st.sampled_from(['item', 'attr'])),
         # ---- reading / selecting
         'row': dict(t=_t, i=st.integers(0, 30), neg=st.booleans(), raw=st.sampled_from(['int', 'int', 'int', 'int64', 'int32'])),
+        # an index just outside [-len, len): a list of records refuses it (IndexError); a row handed back for it (wrapping round to the other end) is a wrong answer
+        'row_outside': dict(t=_t, beyond=st.sampled_from([0, 0, 0, 1, 2, 7]), neg=st.booleans(), idx=st.lists(st.integers(-30, 30), max_size=3),
+                            form=st.sampled_from(['int', 'int', 'int', 'int64', 'list', 'list', 'array', 'range'])),
         'slice': dict(t=_t, start=_sl, stop=_sl, step=_step),
         'mask': dict(t=_t, bits=st.integers(0, 2 ** MAXROWS - 1), mode=st.sampled_from(['bits', 'bits', 'bits', 'none', 'all']),
-                     form=st.sampled_from(['list', 'list', 'list', 'array', 'array', 'mixed'])),
-        'take': dict(t=_t, idx=st.lists(st.integers(-30, 30), max_size=6), form=st.sampled_from(['list', 'list', 'list', 'array', 'array', 'range', 'range', 'mixed'])),
+                     form=st.sampled_from(['list', 'list', 'list', 'array', 'array', 'mixed', 'views'])),
+        'take': dict(t=_t, idx=st.lists(st.integers(-30, 30), max_size=6), form=st.sampled_from(['list', 'list', 'list', 'array', 'array', 'range', 'range', 'mixed', 'views'])),
         'project': dict(t=_t, cols=st.lists(_ci, min_size=1, max_size=3), form=st.sampled_from(['list', 'tuple', 'and', 'and_extra', 'and_str', 'keys']),
                         allow_empty=st.sampled_from([False, False, False, True]), dup=st.sampled_from([False, False, False, True])),
         'minus': dict(t=_t, cols=st.lists(_ci, min_size=1, max_size=3), form=st.sampled_from(['str', 'list', 'list_extra', 'missing']), dup=st.sampled_from([False, False, False, True])),
-        'filter': dict(t=_t, col=_ci, pick=st.integers(0, 30), v=_cell, use_v=st.booleans(), recast=st.sampled_from([0, 0, 0, 1, 2, 3]),
-                       form=st.sampled_from(['inc', 'inc', 'exc', 'exc', 'inc_list', 'inc_list', 'exc_list', 'exc_list', 'inc_dict', 'inc_dict', 'inc_list_n', 'inc_list_n', 'exc_list_n', 'exc_list_n', 'inc_tuple'])),
+        'filter': dict(t=_t, col=_ci, pick=st.integers(0, 30), v=_cell, use_v=st.booleans(), recast=st.sampled_from([0, 0, 0, 1, 2, 3, 4]),
+                       form=st.sampled_from(['inc', 'inc', 'exc', 'exc', 'inc_list', 'inc_list', 'exc_list', 'exc_list', 'inc_dict', 'inc_dict', 'inc_list_n', 'inc_list_n', 'exc_list_n', 'exc_list_n', 'inc_tuple',
+                                             'inc_re', 'exc_re'])),
         'filter_fn': dict(t=_t, fn=st.sampled_from(sorted(FN)), fn_b=st.sampled_from(sorted(FN)), cols=st.lists(_ci, min_size=1, max_size=2), cols_b=st.lists(_ci, min_size=1, max_size=2),
                           shape=st.sampled_from(SHAPES), k=st.integers(0, 9), col=_ci, pick=st.integers(0, 30),
                           form=st.sampled_from(['inc', 'exc', 'inc_two', 'inc_list', 'exc_two', 'inc_fn_value', 'inc_fn_value', 'exc_fn_value', 'inc_dict_fn'])),
-        'get': dict(t=_t, col=_ci, missing=st.booleans(), v=_cell, form=st.sampled_from(['get', 'get_default', 'get_default', 'get_default_kw'])),
+        'get': dict(t=_t, col=_ci, missing=st.booleans(), v=_cell, form=st.sampled_from(['get', 'get_default', 'get_default', 'get_default_kw', 'get_explicit_none'])),
         # ---- derived columns, renaming, per-column transforms
         'derive': dict(t=_t, fn=st.sampled_from(sorted(FN)), args=st.lists(_ci, min_size=1, max_size=3), tgt=_ci, new=st.booleans(),
                        form=st.sampled_from(['getitem', 'getitem', 'call', 'call', 'call', 'call', 'chain', 'chain', 'value', 'value', 'apply', 'apply_defaults', 'factory_pair', 'factory_pair', 'same_fn_two_keys', 'same_fn_twice']),
@@ -450,7 +550,7 @@ class Tables(object):
                          idx2=st.lists(st.integers(-30, 30), min_size=1, max_size=5), form=st.sampled_from(['list', 'list', 'array'])),
         # ---- one read, an in-place change of the same table, the same read again (state that outlives an update); the function objects are the same ones both times
         'reread': dict(t=_t, read=st.sampled_from(['take', 'mask', 'project', 'tuple', 'inc', 'exc', 'fn', 'call', 'do', 'slice', 'rename', 'minus', 'self_add', 'add_record', 'apply']),
-                       upd=st.sampled_from(['set_existing', 'set_existing', 'set_new', 'attr', 'update', 'delcol', 'delcol', 'delattr']),
+                       upd=st.sampled_from(['set_existing', 'set_existing', 'set_new', 'attr', 'update', 'delcol', 'delcol', 'delattr', 'cell', 'cell']),
                        idx=st.lists(st.integers(-30, 30), min_size=1, max_size=5), cols=st.lists(_ci, min_size=1, max_size=3), bits=st.integers(0, 2 ** MAXROWS - 1),
                        col=_ci, pick=st.integers(0, 30), fn=st.sampled_from(sorted(FN)), fn1=st.sampled_from(sorted(F1)), vals=_vals, k=st.integers(0, 9)),
         # ---- ONE argument container handed to several calls in a row (first with extra keywords, then on its own): later calls are judged by its original content
@@ -464,7 +564,7 @@ class Tables(object):
         if _op not in _CTORS:
             PRE[_op] = lambda m: len(m.pool) > 0
     PRE['row'] = lambda m: any(e['m'].n > 0 for e in m.pool)
-    for _op in ('delcol', 'project', 'filter', 'derive', 'iop_cols', 'filter_fn', 'reread'):
+    for _op in ('delcol', 'project', 'filter', 'derive', 'iop_cols', 'filter_fn', 'reread', 'row_outside'):
         PRE[_op] = lambda m: any(e['m'].cols for e in m.pool)
     PRE['reselect'] = lambda m: any(len(e['m'].cols) >= 2 for e in m.pool)
     del _op
@@ -577,7 +677,9 @@ class Tables(object):
             return dict(enumerate(v)).values(), list(v), True
         return v, list(v), True
 
-    def _value_flags(self, mode, n, ncols):
+    def _value_flags(self, mode, n, ncols, cells=()):
+        if mode in ('scalar', 'len1') and n >= 1 and cells and _falsy(cells[0]):
+            self.flags.add('falsy_value')               # 0 / 0.0 / '' / None as THE value of a column
         if mode == 'strn' and n >= 2 and ncols > 0:
             self.flags.add('str_len_n_scalar')
         if mode in ('range', 'dvalues'):
@@ -712,6 +814,13 @@ class Tables(object):
             d = self._pure('dictable(data = %s)' % short(dict(args), 150), lambda: dictable(data=dict(args)))
         elif form == 'kw':
             d = self._pure('dictable(**%s)' % short(dict(args), 150), lambda: dictable(**dict(args)))
+        elif form == 'kw_explicit_none':
+            # the constructor's own defaults written out, positionally or by keyword, next to keyword columns
+            if n % 2:
+                d = self._pure('dictable(None, None, **%s)' % short(dict(args), 150), lambda: dictable(None, None, **dict(args)))
+            else:
+                d = self._pure('dictable(data = None, columns = None, **%s)' % short(dict(args), 150), lambda: dictable(data=None, columns=None, **dict(args)))
+            self.flags.add('explicit_default')
         elif form == 'pairs':
             d = self._pure('dictable(%s)' % short(args, 150), dictable, list(args))
         else:
@@ -757,6 +866,12 @@ class Tables(object):
         self._begin('new_empty')
         if form == 'none':
             d, m = self._pure('dictable()', dictable), T([], [])
+        elif form == 'explicit_none':
+            if len(cols) % 2:
+                d, m = self._pure('dictable(None, None)', dictable, None, None), T([], [])
+            else:
+                d, m = self._pure('dictable(data = None, columns = None)', lambda: dictable(data=None, columns=None)), T([], [])
+            self.flags.add('explicit_default')
         elif form == 'dict':
             d, m = self._pure('dictable({})', dictable, {}), T([], [])
         elif form == 'records':
@@ -794,7 +909,7 @@ class Tables(object):
         d, m = e['d'], e['m']
         c = self._fresh(e, col) if (new or not m.cols) else m.cols[col % len(m.cols)]
         value, cells, fits = self._value(mode, vals, m.n, len(m.cols), k)
-        self._value_flags(mode, m.n, len(m.cols))
+        self._value_flags(mode, m.n, len(m.cols), cells)
         what = {'item': 'd[%r] = %s', 'attr': 'd.%s = %s', 'update': 'd.update({%r: %s})'}[how] % (c, short(value, 100))
         what = '%s on %s' % (what, short(raw(d), 150))
         if how == 'item':
@@ -898,6 +1013,37 @@ class Tables(object):
         exp = m.rows[i]
         check(set(dict.keys(rec)) == set(exp) and all(same(dict.__getitem__(rec, c), exp[c]) for c in exp), 'd[%s] = %s, the model row is %s', i, dict(rec), exp)
 
+    def op_row_outside(self, t, beyond, neg, idx, form):
+        """d[i] / d[[.., i, ..]] with i just outside [-len, len): the list of records has no such row, so the call must refuse; every table stays as it was"""
+        self._begin('row_outside')
+        e = self._pick(t, lambda e: e['m'].cols)
+        if e is None:
+            return self._skip()
+        self._use('row_outside', e)
+        d, m = e['d'], e['m']
+        n = m.n
+        out = -n - 1 - beyond if neg else n + beyond
+        if form in ('int', 'int64'):
+            item = out
+            if form == 'int64':
+                import numpy as np
+                item = np.int64(out)
+        elif form == 'range':
+            item = range(max(n - 1, 0), n + 1 + beyond)         # runs over the end
+        else:
+            inside = [(i % n) if i >= 0 else -((-i - 1) % n) - 1 for i in idx] if n else []
+            item = inside[:len(inside) // 2] + [out] + inside[len(inside) // 2:]
+            if form == 'array':
+                import numpy as np
+                item = np.array(item, dtype=int)
+        what = 'd[%r] on %s (%i rows)' % (item, short(_raw(d), 150), n)
+        snap = self._snap()
+        must_raise(what, Exception, d.__getitem__, item)
+        self._unchanged(what + ' (refused)', snap)
+        self.flags.add('index_outside')
+        if n > 0:
+            self.flags.add('index_outside_nonempty')     # a wrapped index would have found a row
+
     def op_slice(self, t, start, stop, step):
         self._begin('slice')
         e = self._pick(t)
@@ -931,6 +1077,8 @@ class Tables(object):
             item = [np.bool_(b) if j % 2 else b for j, b in enumerate(bits)]     # bool and numpy.bool_ in one mask
             if len(item) >= 2:
                 self.flags.add('raw_index_types')
+        elif form == 'views':
+            item = self._views(e, bits, [not b for b in bits][::-1], bool, lambda bb: T(m.cols, [r for r, b in zip(m.rows, bb) if b]))
         else:
             item = list(bits)
         res = self._pure('d[%s] on %s' % (short(item, 100), short(raw(d), 150)), d.__getitem__, item)
@@ -969,12 +1117,31 @@ class Tables(object):
             item = [[np.int64, int, np.int32][j % 3](i) for j, i in enumerate(idx)]     # python and numpy integers in one list
             if len(item) >= 2:
                 self.flags.add('raw_index_types')
+        elif form == 'views':
+            item = self._views(e, idx, [-i - 1 for i in idx][::-1], int, lambda ii: T(m.cols, [m.rows[i] for i in ii]))
         else:
             item = list(idx)
         res = self._pure('d[%s] on %s' % (short(item, 100), short(raw(d), 150)), d.__getitem__, item)
         self._add(op, res, T(m.cols, [m.rows[i] for i in idx]), [e])
         if len(set(i % n for i in idx)) < len(idx):
             self.flags.add('repeated_rows')
+
+    def _views(self, e, wanted, other, dtype, model):
+        """
+        two views of ONE buffer that start at the same address with the same dtype and shape and walk it with different strides: a[:k] and a[::2][:k].
+        The buffer interleaves `wanted` and `other`, so a[::2][:k] reads `wanted`; the selection by a[:k] is made (and judged) first, a[::2][:k] is handed back
+        """
+        import numpy as np
+        d = e['d']
+        k = len(wanted)
+        buf = np.array([x for pair in zip(wanted, other) for x in pair], dtype=dtype)
+        first, second = buf[:k], buf[::2][:k]
+        what = 'd[a[:%i]] with a = %s on %s' % (k, buf.tolist(), short(raw(d), 150))
+        res = self._pure(what, d.__getitem__, first)
+        self._verify(what, res, model(buf.tolist()[:k]))
+        if k >= 2 and first.tolist() != second.tolist():
+            self.flags.add('strided_views_of_one_buffer')
+        return second
 
     def op_project(self, t, cols, form, allow_empty=False, dup=False):
         self._begin('project')
@@ -1044,6 +1211,9 @@ class Tables(object):
             return self._skip()
         if pick % 2 == 0 and form in ('inc', 'exc', 'inc_dict'):
             e = self._pick(t, lambda e: any(_isnan(y) for c in e['m'].cols for y in e['m'].col(c))) or e
+        if form in ('inc_re', 'exc_re'):
+            e = self._pick(t, lambda e: any(isinstance(y, str) for c in e['m'].cols for y in e['m'].col(c))) or e
+            return self._filter_re(e, col, pick, form)
         self._use('filter', e)
         d, m = e['d'], e['m']
         c = m.cols[col % len(m.cols)]
@@ -1056,9 +1226,20 @@ class Tables(object):
             column = m.col(c)
             v = float('nan')
             self.flags.add('filter_by_nan')
-        elif column and not use_v:
+        elif column and (not use_v or recast == 4):
+            if recast == 4:
+                nearable = [x for x in m.cols if any(_near(y) is not None for y in m.col(x))]
+                if nearable:
+                    c = nearable[col % len(nearable)]
+                    column = m.col(c)
             v = column[pick % len(column)]
-            if recast:
+            if recast == 4:
+                # a near miss: a number that numpy.isclose takes for a cell of the column and == does not
+                for x in [v] + [x for x in column if x is not v]:
+                    if _near(x) is not None:
+                        v = _near(x)
+                        break
+            elif recast:
                 # the value of a cell of the column, written in another raw type (1 -> 1.0 -> numpy.float64(1.0) -> numpy.int64(1); datetime <-> Timestamp)
                 for x in [v] + [x for x in column if x is not v]:
                     alt = _recast(x, recast)
@@ -1084,6 +1265,11 @@ class Tables(object):
             values = [v] + ([column[(pick + 1) % len(column)]] if column else [])
             keep = [hit(r[c], values) for r in m.rows]
             arg = tuple(values) if form == 'inc_tuple' else list(values)
+        asked = list(arg) if isinstance(arg, (list, tuple)) else [arg]
+        if any(_close_not_equal(x, y) for x in column for y in asked):
+            self.flags.add('near_miss_value')           # the condition names a number within a tolerance of a cell that is not equal to it
+        if form in ('inc', 'exc', 'inc_dict') and _falsy(arg) and m.n:
+            self.flags.add('falsy_value')
         met = [r[c] for r, b in zip(m.rows, keep) if b]
         if any(type(x) is not type(y) and bool(x == y) for x in met for y in met + (list(arg) if isinstance(arg, (list, tuple)) else [arg])):
             self.flags.add('raw_types_same_value')      # one value of the condition is met by cells of different raw types
@@ -1094,6 +1280,46 @@ class Tables(object):
         else:
             keep = [not b for b in keep]
             res = self._pure('d.exc(%s = %r) on %s' % (c, arg, rd), lambda: d.exc(**{c: arg}))
+        newm = T(m.cols, [r for r, b in zip(m.rows, keep) if b])
+        if m.n > 0 and newm.n == 0:
+            self.flags.add('mask_to_empty')
+        self._add('filter', res, newm, [e])
+
+    def _filter_re(self, e, col, pick, form):
+        """inc / exc by a compiled pattern (docstring of inc): keeps / drops the rows whose cell is a string the pattern finds something in; the pattern carries flags"""
+        self._use('filter', e)
+        d, m = e['d'], e['m']
+        rd = short(raw(d), 150)
+        strs = [c for c in m.cols if any(isinstance(y, str) and y.isalnum() for y in m.col(c))]
+        c = strs[col % len(strs)] if strs else m.cols[col % len(m.cols)]
+        if not strs and m.n > 0:
+            # no text in any live table: the column is first assigned text (in place, an ordinary fitting assignment), so that the pattern has something to find
+            text = [['a', 'ab', 'A', 'A\nb', 'b', 1, 'Ab', None][(i + pick) % 8] for i in range(m.n)]
+            what = 'd[%r] = %s on %s' % (c, text, rd)
+            snap = self._snap(skip=d)
+            call(what, d.__setitem__, c, list(text))
+            self._unchanged(what, snap)
+            newm = self._assign_model(m, c, text)
+            m.cols, m.rows = newm.cols, newm.rows
+            e['gen'] += 1
+            self.check()
+            rd = short(raw(d), 150)
+        column = m.col(c)
+        lits = [y for y in column if isinstance(y, str) and y.isalnum() and y.isascii()]
+        lit = lits[pick % len(lits)] if lits else 'a'
+        variants = _re_variants(lit)
+        name, pattern, reading, unflagged = variants[(pick // 3) % len(variants)]
+        hit = [isinstance(r[c], str) and bool(reading(r[c])) for r in m.rows]
+        if pattern.flags & (re.I | re.M | re.S | re.X):
+            self.flags.add('regex_with_flags')
+            if any(isinstance(r[c], str) and bool(reading(r[c])) != bool(unflagged(r[c])) for r in m.rows):
+                self.flags.add('regex_flag_decides')    # the same text compiled without its flags selects other rows
+        if form == 'inc_re':
+            keep = hit
+            res = self._pure('d.inc(%s = %s) on %s' % (c, name, rd), lambda: d.inc(**{c: pattern}))
+        else:
+            keep = [not b for b in hit]
+            res = self._pure('d.exc(%s = %s) on %s' % (c, name, rd), lambda: d.exc(**{c: pattern}))
         newm = T(m.cols, [r for r, b in zip(m.rows, keep) if b])
         if m.n > 0 and newm.n == 0:
             self.flags.add('mask_to_empty')
@@ -1180,7 +1406,7 @@ class Tables(object):
             self.flags.add('derive_chain')
         else:
             value, cells, fits = self._value(mode, vals, m.n, len(m.cols), k)
-            self._value_flags(mode, m.n, len(m.cols))
+            self._value_flags(mode, m.n, len(m.cols), cells)
             what = 'd(%s = %s) on %s' % (c, short(value, 100), rd)
             if fits:
                 res = self._pure(what, lambda: d(**{c: value}))
@@ -1573,7 +1799,7 @@ class Tables(object):
             mode = 'fit'
         c = self._fresh(e, col) if (new or not m.cols) else m.cols[col % len(m.cols)]
         value, cells, fits = self._value(mode, vals, m.n, len(m.cols), k)
-        self._value_flags(mode, m.n, len(m.cols))
+        self._value_flags(mode, m.n, len(m.cols), cells)
         what = 'd |= {%r: %s} on %s' % (c, short(value, 100), short(raw(d), 150))
         if fits:
             self._augmented('ior', e, what, lambda: operator.ior(d, {c: value}), self._assign_model(m, c, cells), [e])
@@ -1720,7 +1946,14 @@ class Tables(object):
         else:
             c = m.cols[col % len(m.cols)]
             exp = m.col(c)
-        if form == 'get':
+        if form == 'get_explicit_none':
+            # the default of the parameter written out
+            v = None
+            if missing or not m.cols:
+                exp = [None] * m.n
+            res = self._pure('d.get(%r, None) on %s' % (c, rd), d.get, c, None) if col % 2 else self._pure('d.get(%r, default = None) on %s' % (c, rd), lambda: d.get(c, default=None))
+            self.flags.add('explicit_default')
+        elif form == 'get':
             res = self._pure('d.get(%r) on %s' % (c, rd), d.get, c)
         elif form == 'get_default':
             res = self._pure('d.get(%r, %r) on %s' % (c, v, rd), d.get, c, v)
@@ -1729,6 +1962,8 @@ class Tables(object):
         check(isinstance(res, list) and same_list(res, exp), 'd.get(%r%s) = %s on %s, the model says %s', c, '' if form == 'get' else ', %r' % (v,), res, rd, exp)
         if form != 'get' and (missing or not m.cols) and m.n > 0:
             self.flags.add('optional_params')
+            if _falsy(v):
+                self.flags.add('falsy_value')
 
     # ------------------------------------------------------------------ read, change in place, read again
     def _read(self, e, read, a, force=None):
@@ -1822,8 +2057,12 @@ class Tables(object):
         free = [c for c in m.cols if c not in used]
         if upd in ('delcol', 'delattr') and not (free and len(m.cols) >= 2):
             upd = 'set_existing'
+        if upd == 'cell' and m.n == 0:
+            upd = 'set_existing'
         if upd in ('delcol', 'delattr'):
             self._delcol(e, free[col % len(free)], 'item' if upd == 'delcol' else 'attr')
+        elif upd == 'cell':
+            self._cell_edit(e, (used or m.cols)[col % len(used or m.cols)], pick % m.n, build(vals[k % len(vals)]), k)
         else:
             if upd == 'set_new':
                 c = self._fresh(e, col)
@@ -1847,6 +2086,39 @@ class Tables(object):
         self.check()
         self._read(e, read, a, force=used)
         self.flags.add('read_update_read')
+
+    def _cell_edit(self, e, c, i, v, k):
+        """
+        the caller takes the column the table hands out (d[c], d.c, d.get(c)) and writes ONE cell into that list.  When the list is the table's own column
+        (it is today) the table has changed: row i now holds v in column c - and so has every other column of a live table that is this very list object
+        (a copy shares its column lists with the original; one list can be two columns).  Nothing else changes.  Were a copy handed out, nothing changes at all.
+        """
+        d = e['d']
+        how = ['d[%r]', 'd.%s', 'd.get(%r)'][k % 3] % c
+        what = '%s[%i] = %r on %s' % (how, i, v, short(raw(d), 150))
+        lst = call(how, [lambda: d[c], lambda: getattr(d, c), lambda: d.get(c)][k % 3])
+        check(isinstance(lst, list) and len(lst) == e['m'].n, '%s = %s: not the column', how, lst)
+        holders = []            # (model, column) of every live column that IS this list
+        snap = []
+        for x in self.pool:
+            store = raw(x['d'])
+            for c2, col in store.items():
+                if col is lst:
+                    if not any(mm is x['m'] and cc == c2 for mm, cc in holders):
+                        holders.append((x['m'], c2))
+            snap.append((x, {c2: list(col) for c2, col in store.items() if col is not lst}))
+        lst[i] = v
+        for x, before in snap:
+            after = raw(x['d'])
+            ok = all(c2 in after and (after[c2] is lst or same_list(after[c2], before[c2])) for c2 in before) and all(c2 in before or after[c2] is lst for c2 in after)
+            check(ok, '%s altered a column that is not the list written to: was %s, now %s', what, before, after)
+        for mm, c2 in holders:
+            mm.rows[i][c2] = v
+        if any(mm is e['m'] for mm, _ in holders):
+            self.flags.add('cell_edit_through_column')
+            e['gen'] += 1
+        if len(set(id(mm) for mm, _ in holders)) >= 2:
+            self.flags.add('cell_edit_seen_by_tables_sharing_the_list')
 
     # ------------------------------------------------------------------ one argument container, several calls
     def op_shared_arg(self, t, t2, form, cols, names, rec, rec2, vals, vals2, k, col, pick, fn1):
@@ -2036,6 +2308,10 @@ class Tables(object):
                 col = m.col(c)
                 if any(_isnan(v) for v in col):
                     self.flags.add('nan_cells')
+                if any(isinstance(v, _datetime.datetime) and v.tzinfo is not None for v in col):
+                    self.flags.add('zone_aware_cells')
+                    if e['gen'] >= 1 and e['src'] not in self._CTORS:
+                        self.flags.add('zone_aware_cells_in_a_result')      # a table some operation made out of another holds them
                 if len(col) >= 2 and all(_isnumber(v) for v in col):
                     ints = [v for v in col if _isint(v)]
                     floats = [v for v in col if not _isint(v)]
@@ -2076,6 +2352,10 @@ SUBS = [
                     'NaN, -0.0; inc / exc by a NaN that is another object than the cells; headers / pairs / selections naming a column twice; user functions of the shapes f(a, **kw), f(a, *rest), f(p0, *rest), keyword-only, defaults that are columns, '
                     'container defaults as long as the table, f(**kw), f(*a, **kw), two functions out of one factory, one function object for two keys / two calls; inc / exc by predicates (one, several, with a value condition); '
                     'd.get(c, default), d.apply(f, **defaults); strings exactly as long as the table as one cell, range / dict_values as column values, value lists exactly as long as the table holding 0 / 1; do([f, g]) with f, g that do not commute. '
+                    'Classes 21-29: zone-aware datetime / Timestamp cells of one zone (+05:30) carried through every operation with instant and offset intact; d[i] / d[[.., i, ..]] / d[array] / d[range] with i just outside [-len, len) '
+                    'must be refused and change nothing; inc / exc by compiled patterns carrying re.I / re.X / re.M / re.S (and flag-less controls) judged by plain string operations; functools.partial with a keyword / a bound first argument as user function; '
+                    'masks and integer arrays that are strided views of one buffer (a[:k] then a[::2][:k]); the defaults of dictable(data, columns) and get(default) written out; inc / exc by numbers within numpy.isclose of a cell without being equal; '
+                    'a cell written through the column list the table hands out (d[c][i] = v) between two identical reads, followed into every live column that is that list object; 0 / 0.0 / \'\' / None as broadcast value, get default and filter value. '
                     'oracle after every step for every live table: rectangular column store, len, shape, keys, columns, dict(d), d[c], iteration, d[i][c] == d[c][i] '
                     '(also negative i) against the model; all live tables unchanged by every non-in-place call; misfit assignment raises ValueError and changes nothing. '
                     'non-trivial = >= 3 operations, a table produced by one rule consumed by another, and an empty table / broadcast / concatenation with differing columns / '
@@ -2090,5 +2370,10 @@ SUBS = [
                              'duplicate_labels': 0.065, 'fn_shape': 0.13, 'fn_shape=kw': 0.03, 'fn_shape=rest': 0.03, 'fn_shape=p0_rest': 0.012, 'fn_shape=kwonly': 0.03,
                              'fn_shape=default_col': 0.028, 'fn_shape=default_absent': 0.028, 'fn_shape=allkw': 0.015, 'fn_shape=allargs': 0.02, 'fn_shape=other_name': 0.015,
                              'fn_factory_pair': 0.014, 'fn_filter': 0.08, 'fn_then_value': 0.025, 'optional_params': 0.04,
-                             'filter_by_nan': 0.003, 'str_len_n_scalar': 0.022, 'range_value': 0.065, 'filter_list_len_n': 0.011, 'do_fns_order_matters': 0.007}),
+                             'filter_by_nan': 0.003, 'str_len_n_scalar': 0.022, 'range_value': 0.065, 'filter_list_len_n': 0.011, 'do_fns_order_matters': 0.007,
+                             # classes 21-29 of the brief (floors: about a third of the rate seen over seeds 1-3)
+                             'zone_aware_cells': 0.09, 'zone_aware_cells_in_a_result': 0.065, 'index_outside': 0.085, 'index_outside_nonempty': 0.065,
+                             'regex_with_flags': 0.013, 'regex_flag_decides': 0.005, 'fn_shape=partial_kw': 0.024, 'fn_shape=partial_pos': 0.018,
+                             'strided_views_of_one_buffer': 0.018, 'explicit_default': 0.088, 'near_miss_value': 0.005,
+                             'cell_edit_through_column': 0.021, 'cell_edit_seen_by_tables_sharing_the_list': 0.003, 'falsy_value': 0.04}),
 ]
